@@ -41,6 +41,10 @@ TEMPLATE_GRAMMARS = [
      ['x = y', 'x =\ny', 'x = y\nz = w', 'x=y;z = w;', ' a=b', ''], None),
     ('start = Sum\nSum = Prod between {\n left: "+", "-"\n}\nProd = Atom between {\n prefix: "-"\n left: "*"\n}\nAtom = /\\d/ | ("(" >> Sum << ")")\n',
      ['1+2*3', '-(1+2)', '1+', '(1', ''], None),
+    # a Python section whose behaviour depends on how the module was compiled (assert, docstrings, __debug__)
+    ('```\ndef small(x):\n    "small things"\n    assert len(x) < 3, "too long"\n    return True\ndef doc(_):\n    return (small.__doc__, __debug__)\n```\n'
+     'start = [/[a-z]+/ where `small`, "!"? |> `doc`]\n',
+     ['ab', 'abcd', 'ab!', '', 'a'], None),
 ]
 
 RUNNER = r'''
